@@ -5,7 +5,7 @@ From PS Require Import Model.Router Run.Verdict.
 
 Record aobs := {
   ao_interest : list (nat * list topic);           (* node -> topics it holds a subscription or relay for (harness bookkeeping of its own API calls) *)
-  ao_links : list (nat * nat * bool);              (* connected pairs (a, b); the flag marks a pair whose pubsub stream was reset while the connection stayed up *)
+  ao_links : list (nat * nat * bool);              (* connected pairs, both orientations (a, b) and (b, a); the flag: a's OUTBOUND pubsub stream to b was reset while the connection stayed up *)
   ao_views : list (nat * list (topic * list nat))  (* node -> topic -> Topic/PubSub.ListPeers *)
 }.
 Definition ntopics : list topic := [0; 1; 2].
@@ -13,11 +13,12 @@ Definition sees (o : aobs) (a : nat) (t : topic) (b : nat) : bool :=
   memb b (aget_l t (match aget a (ao_views o) with Some m => m | None => [] end)).
 Definition wants (o : aobs) (b : nat) (t : topic) : bool := memb t (aget_l b (ao_interest o)).
 
-(* 51: a node's peer list for a topic differs from the connected, interested peers; 53: same, on a pair that had a stream reset (known finding) *)
+(* 51: a's peer list for a topic differs from the connected, interested peers in what it says about b;
+   53: same, where a's own outbound stream to b had been reset (known finding: a forgets what b announced). What b lists for a is not excused. *)
 Definition mon_a (o : aobs) : nat :=
   let bad := fun (a b : nat) => existsb (fun t => negb (Bool.eqb (sees o a t b) (wants o b t))) ntopics in
-  if existsb (fun l => let '(a, b, r) := l in negb r && (bad a b || bad b a)) (ao_links o) then 51
-  else if existsb (fun l => let '(a, b, r) := l in r && (bad a b || bad b a)) (ao_links o) then 53
+  if existsb (fun l => let '(a, b, r) := l in negb r && bad a b) (ao_links o) then 51
+  else if existsb (fun l => let '(a, b, r) := l in r && bad a b) (ao_links o) then 53
   (* nobody is listed who is not connected *)
   else if existsb (fun e => existsb (fun te => existsb (fun b =>
               negb (existsb (fun l => let '(x, y, _) := l in (Nat.eqb x (fst e) && Nat.eqb y b) || (Nat.eqb y (fst e) && Nat.eqb x b)) (ao_links o))) (snd te)) (snd e)) (ao_views o) then 54
